@@ -108,6 +108,12 @@ def instantiate(eng, seed=0, n=4, lo=-3, hi=3, pin_zero=True, budget_s=40.0):
                 s.add(zv[v] == z3.RealVal(str(val)))
                 if s.check() != z3.sat:
                     s.pop()
+            # prefer witnesses in which constrained inputs do not vanish (a zero input is often an excluded degenerate case)
+            for v in order:
+                s.push()
+                s.add(zv[v] != 0)
+                if s.check() != z3.sat:
+                    s.pop()
             if s.check() != z3.sat:
                 continue
             m = s.model()
